@@ -127,7 +127,9 @@ class UpdateContextFromStatic(object):
         return self._context == other._context
 
     def _set_context(self, context):
-        self._context = context
+        # a deep copy, otherwise further elements
+        # might influence our context (as in StoreContext).
+        self._context = deepcopy(context)
 
     def run(self, flow):
         for val in flow:
